@@ -18,7 +18,7 @@ RULE = ("E-INPUT: (a) every label multiset (13 positions x widths {1,4,20}) up t
         "Force.compute() + getLayers() + layerIndex. Non-trivial: >= 2 layers produced.")
 ASSUMPTIONS = ["cases with |required - budget| < 1e-9 are judged only when density*layerWidth is exact in binary (an exact fit fits); otherwise counted, not judged",
                "trailing empty layers from algorithm 'simple' are not flagged (not forbidden by the statement)"]
-REQUIRED_COUNTERS = ("dist_multi_layer", "engine_cases", "dist_three_or_more_layers")
+REQUIRED_COUNTERS = ("dist_multi_layer", "engine_cases", "dist_three_or_more_layers", "edge_cases")
 
 POS13 = [x / 2 for x in range(13)]
 ALPHA = [(p, w) for p in POS13 for w in (1, 4, 20)]
@@ -48,6 +48,8 @@ def plan(tier, seed):
     # deep slice: 5..9 labels (>= 3 layers with the overlap algorithm) x a reduced option menu
     for n in range(5, 10):
         shards.append({"kind": "deep", "n": n})
+    # boundary values: required width = budget x (1 +- eps) for eps from 1e-5 to 5e-3 (the split decision is a threshold test)
+    shards.append({"kind": "edge"})
     # seeded slice: shifted positions, another wide label
     shards.append({"kind": "dist", "alpha": "S", "nmax": 2, "opts": "full", "mod": 1, "rem": 0, "seed": seed})
     for s in layout.plan_layout(tier, seed):
@@ -165,6 +167,33 @@ def run_shard(shard):
         acc.counters["engine_cases"] += acc.evals
         return acc
     acc = Acc()
+    if shard["kind"] == "edge":
+        for lw in (10, 1000, 4000):
+            for dens in (0.75, 0.85, 1.0):
+                for sp in (0, 3):
+                    for algo in ("overlap", "simple"):
+                        o = dict(layerWidth=lw, density=dens, nodeSpacing=sp, stubWidth=1, algorithm=algo)
+                        budget = dens * lw
+                        for n in (3, 4, 6):
+                            for eps in (1e-5, 1e-4, 3e-4, 1e-3, 5e-3):
+                                for sign in (1, -1):
+                                    req = budget * (1 + sign * eps)
+                                    w0 = float(int(budget / n) - sp)
+                                    last = req - w0 * (n - 1) - sp * (n - 1)
+                                    if last <= 0 or w0 <= 0:
+                                        continue
+                                    labels = [(i * 1.5, w0) for i in range(n - 1)] + [((n - 1) * 1.5, last)]
+                                    key, reason, nl, amb = check_distribution(labels, o)
+                                    acc.evals += 1
+                                    acc.states += 1
+                                    acc.trans += 1
+                                    acc.counters["edge_cases"] += 1
+                                    if nl > 1:
+                                        acc.nontriv += 1
+                                    if key:
+                                        acc.violation({"labels": labels, "dist_opts": o}, key, reason, order=(40, n, eps))
+        acc.sample({"labels": labels, "dist_opts": o})
+        return acc
     if shard["kind"] == "deep":
         n = shard["n"]
         for pi, pat in enumerate(([(3, 4)] * n, [(3 + (i % 3) * 0.5, 4 if i % 2 else 1) for i in range(n)],
